@@ -28,7 +28,7 @@ Cases ==
       [] Family = "convert" -> {[k |-> "convert", toSSE |-> d, headParts |-> hp, removeParallax |-> rp, calcBounds |-> cb, fixBSX |-> fb, fixShader |-> fs,
                                  skinned |-> sk, colors |-> co, strips |-> st, parts |-> pa, dupNames |-> dn] :
                                     d, hp, rp, cb, fb, fs, sk, co, st, pa, dn \in BOOLEAN}
-      [] Family = "partassign" -> UNION {{[k |-> "partassign", nt |-> nt, np |-> np, L |-> L] : L \in [1..nt -> 0..(np - 1)]} : nt \in 1..MaxT, np \in 1..3}
+      [] Family = "partassign" -> UNION {{[k |-> "partassign", nt |-> nt, np |-> np, L |-> L] : L \in [1..nt -> -1..np]} : nt \in 1..(MaxT - 1), np \in 1..3}
 Expected(x) ==
     CASE x.k = "delverts" -> [labels |-> Erase(Iota(x.nv), x.I), tris |-> MapTris(x.tris, CollapseMap(x.I, x.nv))]
       [] x.k = "segments" -> [newLabels |-> [i \in 1..x.nt |-> NewLabel(x.info, x.L[i])]]
